@@ -185,6 +185,27 @@ def check_one(out: Outcome, case) -> bool:
     return True
 
 
+def check_deep(out: Outcome, sub) -> None:
+    m, rom, depth = sub["m"], sub["rom"], sub["depth"]
+    model = busmodel.builtin(rom)
+    r = model.rom_ranges()[0]
+    S = ((r.first + 1) << 16) | (r.win_lo + 0x100)
+    kinds = ["{", ".scope sc_%d {", ".if 1 {", ".for i_%d := 0, 1 {"]
+    opens = "".join((kinds[(i * 7 + depth) % 4] % i if "%d" in kinds[(i * 7 + depth) % 4] else kinds[(i * 7 + depth) % 4]) + "\n" for i in range(depth - 1))
+    src = (f"*=0x{S:06x}\nagain:\n.db 0xea, 0xea, 0xea\n{{\nagain:\nnop\n" + opens + f"{m} again\n" + "}\n" * (depth - 1) + "}\n")
+    res = driver.assemble_mem(src, rom=rom)
+    opcode = isa.BY_KEY.get((m, "rel8"))
+    if not res.accepted:
+        if m in MUST_ASSEMBLE:
+            out.bad(f"deep:rejected:{m}", sub, f"{rom}: branch to a label {depth} scope levels up rejected: {res['status']} {res['exc']} {res.failure_text[:160]}\n{src[:300]}")
+        return
+    flat = b"".join(dd for _, dd in res["blocks"])
+    want = bytes([0xEA] * 4 + [opcode, 0xFD])  # 3 filler bytes, nop, branch back over the nop to the inner label
+    if flat != want:
+        out.bad("deep:wrong-displacement", sub, f"{rom}: branch to the label defined {depth} scope levels up (a same-named label exists at the top level) "
+                f"emitted {flat.hex()}, expected {want.hex()}\n{src[:300]}")
+
+
 def enum_units(tier, seed):
     units = []
     for rom in ("low", "high"):
@@ -228,12 +249,22 @@ def run_case(case) -> Outcome:
                     if check_one(out, sub):
                         ev += 1
                         nt += 1
+        # the target label is defined many scope levels above the branch, and a label of the same name exists at the top
+        # level (in range too): the displacement is the one to the nearest enclosing definition, at any depth
+        for depth in (2, 8, 16, 17, 31, 32, 33, 34, 40, 70):
+            sub = {"t": "deep", "m": case["m"], "rom": case["rom"], "depth": depth}
+            check_deep(out, sub)
+            ev += 1
+            nt += 1
         out.evals, out.nontrivial = ev, nt
         out.labels = [f"branch:{case['rom']}:{'full' if case['full'] else 'keypoints'}"]
         b = build({"m": case["m"], "rom": case["rom"], "d": -128, "tgt": "back", "place": "target-at-start", "reloc": "rom"})
         out.sample = {"mnemonic": case["m"], "rom": case["rom"], "cases": ev, "example_source": b[0].splitlines()[:3] + ["..."] + b[0].splitlines()[-1:], "expect": str(b[2])}
         return out
     out = Outcome(evals=1, nontrivial=True)
+    if case.get("t") == "deep":
+        check_deep(out, case)
+        return out
     if not check_one(out, case):
         return Outcome(skip="combination outside the statement")
     return out
